@@ -122,6 +122,17 @@ def judge(ctx, p, rng):
                     ld.addOption(s_, list(pos_) if n_ % 2 else pos_)
                 else:
                     ld.addOption(s_)
+            if rng.random() < 0.5:
+                # the loader first reads texts that are refused - half-way
+                # through a section, and at once: its options are as they
+                # were for the loads that follow
+                res.count("loader_object_reuse_after_refused_loads")
+                for junk in (p.text + "<zcv-nosuch-type>\n",
+                             "</zcv>\n" + p.text):
+                    try:
+                        ld.loadFile(io.StringIO(junk))
+                    except Exception:  # noqa
+                        pass
             for _ in (1, 2):
                 try:
                     cfg, _h = ld.loadFile(io.StringIO(p.text))
